@@ -524,6 +524,7 @@ def run_inline_em(key):
 GRID = (0.0, -1.0, -3.0)
 WIDE = (0.0, -800.0, -2000.0)    # class log-likelihoods further apart than the exp() range
 FINE = (-3.0, -3.001, -3.002)     # nearly tied classes with a clearly negative criterion
+MIXED = (0.0, -1.0, -100.0)     # one class decided (100 nats away), the other two within a nat of each other
 NEGINF = (0.0, -1.0, -np.inf)     # classes that are impossible for an observation (log-density -inf)
 
 
@@ -534,7 +535,7 @@ def run_builtin(key):
     n = K * F * T
     digits = []
     x = idx
-    grid = {'wide': WIDE, 'fine': FINE, 'neginf': NEGINF}.get(key.get('grid'), GRID)
+    grid = {'wide': WIDE, 'fine': FINE, 'neginf': NEGINF, 'mixed': MIXED}.get(key.get('grid'), GRID)
     for _ in range(2 * n):
         digits.append(grid[x % 3])
         x //= 3
@@ -725,13 +726,20 @@ def subchecks(tier, seed):
         tabs = [(2, 1, 1), (2, 1, 2), (2, 2, 1), (3, 1, 1)]
         if thorough:
             tabs.append((3, 1, 2))
+        else:
+            # three classes, two observations: every 27th table of the mixed grid (thorough: all of them)
+            for idx in range(0, 3 ** 12, 27):
+                yield (3, 1, 2, idx + (idx // 27) % 27, 'uniform', 'mixed')
         for (K, F, T) in tabs:
             for idx in range(3 ** (2 * K * F * T)):
                 for w in ('uniform', 'graded'):
                     yield (K, F, T, idx, w, 'narrow')
+                    if (K, F, T) == (3, 1, 2):
+                        yield (K, F, T, idx, w, 'mixed')
                     if (K, F, T) in ((2, 1, 1), (2, 1, 2), (3, 1, 1)) and (thorough or w == 'uniform'):
                         yield (K, F, T, idx, w, 'wide')
                         yield (K, F, T, idx, w, 'fine')
+                        yield (K, F, T, idx, w, 'mixed')
                         if (K, F, T) != (3, 1, 1) or idx % 3 == 0:
                             yield (K, F, T, idx, w, 'neginf')
     subs.append(Sub('builtin_spatial_spectral_pa', ('K', 'F', 'T', 'idx', 'w', 'grid'),
